@@ -71,6 +71,9 @@ func NewReadWriteMultipleRegistersRequestTCP(
 	if writeByteCount%2 != 0 {
 		return nil, errors.New("write data length must be even number of bytes")
 	}
+	if writeByteCount/2 > 124 { // checked before narrowing to uint16: a 131074 byte payload must not wrap around to 1 register
+		return nil, fmt.Errorf("write registers count out of range (1-124): %v", writeByteCount/2)
+	}
 	writeRegisterCount := uint16(writeByteCount / 2)
 	if writeRegisterCount == 0 || writeRegisterCount > 124 {
 		return nil, fmt.Errorf("write registers count out of range (1-124): %v", writeRegisterCount)
@@ -180,6 +183,9 @@ func NewReadWriteMultipleRegistersRequestRTU(
 	writeByteCount := len(writeData)
 	if writeByteCount%2 != 0 {
 		return nil, errors.New("write data length must be even number of bytes")
+	}
+	if writeByteCount/2 > 124 { // checked before narrowing to uint16: a 131074 byte payload must not wrap around to 1 register
+		return nil, fmt.Errorf("write registers count out of range (1-124): %v", writeByteCount/2)
 	}
 	registerCount := uint16(writeByteCount / 2)
 	if registerCount == 0 || registerCount > 124 {
